@@ -49,7 +49,7 @@ func Run(args []string) {
 	run.Finish(ev.Coverage{
 		"evaluations":         st.evaluations + b.opens,
 		"distinct_nontrivial": len(st.nontrivialKeys) + b.refusalsRequired + b.lowered,
-		"rule": fmt.Sprintf("every non-empty subset of version numbers {1..%d} x every declaration order x every behaviour (nil, succeeds, fails after writing) per version x every stored version 0..%d and 'no version stored', one migration.Upgrade call each inside walletdb.Update on a real bdb file; plus two services in one Upgrade call (first over {1..%d}, second over {1..%d}, same dimensions each); non-trivial = the model requires a refusal or has at least one version pending (stored < latest) for a service reached by the call. Part B: wallet.Open over wtxmgr x waddrmgr stored versions {0..latest+2, 255, 2^32-1}; non-trivial = not both at latest",
+		"rule": fmt.Sprintf("every non-empty subset of version numbers {1..%d} x every declaration order x every behaviour (nil, succeeds, fails after writing) per version x every stored version 0..%d and 'no version stored', one migration.Upgrade call each inside walletdb.Update on a real bdb file; plus two services in one Upgrade call (first over {1..%d}, second over {1..%d}, same dimensions each); non-trivial = the model requires a refusal or has at least one version pending (stored < latest) for a service reached by the call. Part B: wallet.Open, and wtxmgr.Open / waddrmgr.Open on their own (read-only: only the latest version opens), over wtxmgr x waddrmgr stored versions {0..latest+2, 255, 2^32-1}; non-trivial = not both at latest",
 			nSingle, nSingle+1, nFirst, nSecond),
 		"upgrade_calls":                              st.evaluations,
 		"distinct_cases":                             len(st.keys),
@@ -73,6 +73,7 @@ func Run(args []string) {
 		"wallet_opens_real_migrations_succeeded":     b.loweredSucceeded,
 		"wallet_opens_real_migrations_failed_intact": b.loweredFailed,
 		"wallet_open_panics":                         b.panics,
+		"component_open_calls":                       b.componentOpens,
 		"latest_wtxmgr_version":                      int(b.latestTx),
 		"latest_waddrmgr_version":                    int(b.latestAddr),
 		"workers":                                    workers,
